@@ -1,0 +1,11 @@
+//go:build !verif
+
+/*
+ * SPDX-License-Identifier: AGPL-3.0-only
+ * Copyright (c) 2022-2026, daeuniverse Organization <dae@v2raya.org>
+ */
+
+package control
+
+// verifYield is a no-op outside verification builds (see verif_hooks_on.go).
+func verifYield(string, ...any) {}
